@@ -3,11 +3,12 @@
    yields [Panic] when Go would panic and every loop runs on fuel: for EVERY byte string, EVERY option set and EVERY history
    of entry-point calls, no step panics and no loop exhausts its fuel; errors are sticky.  The models are tied to decoder.go
    by differential execution on every run (outcome class and delivered messages), over arbitrary bytes and structure-aware
-   mutations.  Typed-file listener, raw decoder and DecodeWithContext are covered by the Go oracle (recover + watchdog) and by
-   C13's totality theorem / C16, not by this file. *)
+   mutations.  The raw decoder's fixed array is covered by C03_raw_slices_fit (lengths it computes) + C03_raw_array_suffices (declared
+   array length, translated).  Typed-file listener and DecodeWithContext are covered by the Go oracle (recover + watchdog) and
+   by C13's totality theorem, not by this file. *)
 From Coq Require Import NArith List Bool.
 Import ListNotations.
-From Fit Require Import Model.Api Proofs.DecoderSafety Proofs.ApiSafety Proofs.ApiProofs.
+From Fit Require Import Model.Api Model.Raw Model.Crc gen.DecConst Proofs.DecoderSafety Proofs.ApiSafety Proofs.ApiProofs Proofs.RawSafety.
 Open Scope N_scope.
 
 (* full decode of a (possibly chained) stream: neither Panic nor OutOfFuel *)
@@ -34,6 +35,20 @@ Theorem C03_sticky : forall a e o, a_err a = Some e -> (forall bs c, o <> AReset
   fst (api_step a o) = a /\ (snd (api_step a o) = RErr e \/ snd (api_step a o) = RBool false \/ snd (api_step a o) = RIntegrity 0 (Some e)).
 Proof. exact error_is_sticky. Qed.
 Print Assumptions C03_sticky.
+
+(* raw decoder: every slice d.BytesArray[:n] it takes -- each emitted segment, each data-record length it stores -- has
+   n <= 130051 for every byte stream, and the array declared in decoder/raw.go (translated: gen/DecConst.v) is that long *)
+Theorem C03_raw_slices_fit : forall bs, bytes_ok bs -> res_ok (raw_decode bs).
+Proof. exact raw_segments_fit. Qed.
+Print Assumptions C03_raw_slices_fit.
+
+Theorem C03_raw_lengths_bounded : forall s lens, st_ok s -> lens_ok lens ->
+  match raw_record s lens with inl (s', lens') => st_ok s' /\ lens_ok lens' | inr _ => True end.
+Proof. exact raw_record_lens. Qed.
+Print Assumptions C03_raw_lengths_bounded.
+
+Example C03_raw_array_suffices : (raw_bound <=? raw_array_len) = true.
+Proof. vm_compute. reflexivity. Qed.
 
 (* non-vacuity of the Panic modelling: the same scalar read without the guard does panic in the model *)
 Example C03_unguarded_read_panics : unmarshal false bt_uint16 bt_uint16 false [7] = Panic P_Index.
